@@ -499,6 +499,9 @@ func (l *ledGen) processOne() {
 
 // recv delivers an unconfirmed transaction built on the node's current tip view.
 func (l *ledGen) recv() {
+	if l.g.Prop != "C09" && !l.walletOnBestChain() { // C01/C10 streams (irregular notifications): no deliveries while the wallet sits on a stale branch
+		return
+	}
 	u := map[string]gCoin{}
 	for k, v := range l.tip().utxo {
 		u[k] = v
